@@ -69,21 +69,26 @@ func (discard) Write(p []byte) (int, error) { return len(p), nil }
 // whose id ranges partition the committed log ids and whose hashes are the documented
 // digest of the previous block hash and the block's logs.
 func blockOracle(ctx context.Context, w *world.World, maxBlockSize int) [][2]string {
-	var out [][2]string
 	if err := runBlockBuilder(ctx, w, maxBlockSize); err != nil {
 		return [][2]string{{"blocks:builder-error", err.Error()}}
 	}
-	logs, err := lx.RawRows(ctx, w, `select id, type, encode(memento, 'hex'), (to_json(date::timestamp)#>>'{}'), coalesce(idempotency_key, '') from "_default".logs where ledger = 'l1' order by id`)
+	out, _, _ := blockOracleOn(ctx, w, "_default", "l1", maxBlockSize)
+	return out
+}
+
+// blockOracleOn evaluates the oracle on one ledger WITHOUT running the builder (the
+// caller brought the system to quiescence); it also returns how many committed logs and
+// how many blocks it judged (vacuity accounting).
+func blockOracleOn(ctx context.Context, w *world.World, bucket, name string, maxBlockSize int) (out [][2]string, nLogs, nBlocks int) {
+	logs, err := lx.RawRows(ctx, w, `select id, type, encode(memento, 'hex'), (to_json(date::timestamp)#>>'{}'), coalesce(idempotency_key, '') from "`+bucket+`".logs where ledger = '`+name+`' order by id`)
 	if err != nil {
-		return [][2]string{{"read:logs", err.Error()}}
+		return [][2]string{{"read:logs", err.Error()}}, 0, 0
 	}
-	blocks, err := lx.RawRows(ctx, w, `select id, previous, from_id, to_id, encode(hash, 'hex') from "_default".logs_blocks where ledger = 'l1' order by to_id, id`)
+	blocks, err := lx.RawRows(ctx, w, `select id, previous, from_id, to_id, encode(hash, 'hex') from "`+bucket+`".logs_blocks where ledger = '`+name+`' order by to_id, id`)
 	if err != nil {
-		return [][2]string{{"read:blocks", err.Error()}}
+		return [][2]string{{"read:blocks", err.Error()}}, 0, 0
 	}
-	if len(logs) == 0 {
-		return nil
-	}
+	nLogs, nBlocks = len(logs), len(blocks)
 	atoi := func(s string) int64 { n, _ := strconv.ParseInt(s, 10, 64); return n }
 	covered := map[int64]int{}
 	prevID, prevTo := int64(0), int64(0)
@@ -147,6 +152,10 @@ func blockOracle(ctx context.Context, w *world.World, maxBlockSize int) [][2]str
 				out = append(out, [2]string{sig, fmt.Sprintf("block id %d (%d,%d] stored hash %s != digest of its %d committed logs %s", id, from, to, b[4], n, hex.EncodeToString(h[:]))})
 			}
 		}
+		if n == 0 {
+			// the ranges PARTITION the committed ids: a part of a partition is never empty
+			out = append(out, [2]string{"blocks:empty-block", fmt.Sprintf("block id %d covers (%d,%d], a range holding no committed log", id, from, to)})
+		}
 		if n > maxBlockSize {
 			out = append(out, [2]string{"blocks:size", fmt.Sprintf("block id %d holds %d logs, max block size is %d", id, n, maxBlockSize)})
 		}
@@ -158,7 +167,7 @@ func blockOracle(ctx context.Context, w *world.World, maxBlockSize int) [][2]str
 			out = append(out, [2]string{fmt.Sprintf("blocks:log-covered-%d-times", covered[lid]), fmt.Sprintf("committed log %d is covered by %d blocks", lid, covered[lid])})
 		}
 	}
-	return out
+	return out, nLogs, nBlocks
 }
 
 // escapeBytea is encode(bytea, 'escape').
@@ -244,7 +253,8 @@ func c34Scenarios() ([]*sched.Scenario, error) {
 func init() {
 	registerConc(concCheck{
 		id: "C34", scenarios: c34Scenarios, boundQ: 2, boundT: 3, quick: 100 * time.Second, thorough: 15 * time.Minute, minOutcomes: 2,
-		rule: "HASH_LOGS=ASYNC; 3 scenarios (two writers on disjoint accounts || the block builder; one writer of two logs || two block builders with block size 1; two metadata writers || the builder); the builder thread runs the real AsyncBlockRunner (its cron loop with a one-shot schedule) which calls the create_blocks/create_block procedures executed from the migration text; every schedule with <= bound preemptions; oracle after a final builder run at quiescence: blocks chain on `previous`, (from_id, to_id] ranges are contiguous, every committed log id is covered exactly once, each stored hash == sha256 over the text `previous hash || type||encode(memento,'escape')||date||idempotency key||id ...` recomputed in Go from the committed logs of the range",
+		sequential: c34Sequential,
+		rule: "HASH_LOGS=ASYNC; (A) SEQUENTIAL start states (evidence field `sequential`): every history of <= depth steps (quick 3, thorough 4) over {import of 5 exported logs through the real Import, single write, atomic bulk, non-atomic bulk, builder run} on a pristine ledger x every max block size of the menu, then a final run of the real AsyncBlockRunner (ledger listing, pagination, processLedger, create_blocks) and the oracle below -- this covers the imported-and-untouched ledger (committed logs, state still `initializing`), imported-then-written, bulk-only and pristine ledgers, with and without builder runs in between; plus a FLEET of 17 ASYNC ledgers (> one page of the builder's listing) over two buckets in cycled start states and one SYNC ledger: one builder run, oracle on each ASYNC ledger; (B) CONCURRENT: 3 scenarios (two writers on disjoint accounts || the block builder; one writer of two logs || two block builders with block size 1; two metadata writers || the builder); the builder thread runs the real AsyncBlockRunner (its cron loop with a one-shot schedule) which calls the create_blocks/create_block procedures executed from the migration text; every schedule with <= bound preemptions; oracle after a final builder run at quiescence: blocks chain on `previous`, (from_id, to_id] ranges are contiguous, no block range is empty, every committed log id is covered exactly once, each stored hash == sha256 over the text `previous hash || type||encode(memento,'escape')||date||idempotency key||id ...` recomputed in Go from the committed logs of the range",
 	}, reg.Register)
 }
 
